@@ -178,6 +178,34 @@ def check_splitter(arg):
     return fails, len(names)
 
 
+def check_generated(arg):
+    """lines generated by range_ports() for a platform: the keyword chosen for a number is read back by the parser of the same platform as that number"""
+    import cisco_acl
+    platform, proto, numbers = arg
+    fails = []
+    for n in numbers:
+        for side in ("srcports", "dstports"):
+            for port_nr in (False, True):
+                try:
+                    lines = cisco_acl.range_ports(**{side: str(n)}, line=f"permit {proto} any any", platform=platform, port_nr=port_nr)
+                except Exception as ex:
+                    fails.append(dict(key="bounded/range_ports:error", what=f"range_ports({side}={str(n)!r}, platform={platform!r}, port_nr={port_nr}) raised {type(ex).__name__}: {ex}",
+                                      inputs=dict(platform=platform, protocol=proto, number=n, side=side)))
+                    continue
+                for line in lines:
+                    try:
+                        ace = cisco_acl.Ace(line, platform=platform)
+                        got = list((ace.srcport if side == "srcports" else ace.dstport).items)
+                    except Exception as ex:
+                        got = f"{type(ex).__name__}: {ex}"
+                    if got != [n]:
+                        fails.append(dict(key="bounded/range_ports:keyword-not-read-back", what=f"range_ports({side}={str(n)!r}, platform={platform!r}, port_nr={port_nr}) generated {line!r}, "
+                                          f"which the parser of {platform} reads as {got!r}", inputs=dict(platform=platform, protocol=proto, number=n, side=side),
+                                          cmd=("import sys; sys.path.insert(0, 'props'); import C09\n"
+                                               f"fails, _ = C09.check_generated({(platform, proto, [n])!r})\nprint([f['what'] for f in fails]); sys.exit(1 if fails else 0)\n")))
+    return fails, len(numbers)
+
+
 def check_container(arg):
     """names rendered for entries that live inside containers (ACL, groups) are those of the container's platform and version, also after
     operations that rebuild the entries"""
@@ -351,6 +379,19 @@ def main(chk):
     chk.add_bounded("tables handed out by PortName.names()/ports() are copies: editing them changes nothing in the library", len(acases), len(acases),
                     "3 platforms x 3 versions x tcp/udp; change, removal and addition of an entry, then a fresh PortName and Port objects", viol, time.time() - t0,
                     [list(acases[0])], exhaustive=True)
+    t0 = time.time()
+    named = sorted({v for t in tables.values() for v in t.values()})
+    numbers = sorted({m for v in named for m in (v - 1, v, v + 1) if 1 <= m <= 65535} | {1, 65535})
+    gcases = [(pl, pr, numbers[i::4]) for pl in ("ios", "nxos", "asa") for pr in ("tcp", "udp") for i in range(4)]
+    res = pmap(check_generated, gcases)
+    viol = 0
+    for fails, _ in res:
+        for f in fails:
+            viol += 1
+            chk.finding(f["key"], f["what"], inputs=f["inputs"], cmd=f.get("cmd"), key=f["key"])
+    chk.add_bounded("lines generated by range_ports(): the keyword chosen for a number is read back by the same platform's parser as that number", len(numbers) * 24, len(numbers),
+                    "every number named in any table and its neighbours x 3 platforms x tcp/udp x source/destination side x names/numbers", viol, time.time() - t0,
+                    [list(gcases[0][:2])], exhaustive=True)
     t0 = time.time()
     names = sorted({n for t in tables.values() for n in t})
     res = pmap(check_splitter, [names[i::8] for i in range(8)])
